@@ -6,6 +6,7 @@ pub mod bufs;
 pub mod drv;
 pub mod model;
 pub mod out;
+pub mod readers;
 pub mod runner;
 pub mod sanit;
 pub mod seq;
@@ -63,6 +64,8 @@ fn main() {
     let code = match argv[0].as_str() {
         "seq" => seq::child_main(&args),
         "bufs" => bufs::child_main(&args),
+        "readers" => readers::c15_main(&args),
+        "cksum" => readers::c19_main(&args),
         "drive" => drive::main(&args),
         other => {
             eprintln!("unknown engine {}", other);
